@@ -433,12 +433,12 @@ theorem runSpec_batch {P : List Req} (hP : P.Nodup) (rs : List Req) (hrs : rs.No
         have := hserv x hx
         obtain ⟨w', o'⟩ := x
         rcases (canServe_eq_some_true_iff P w' o').1 this with ⟨hw, hl⟩ | ⟨hw, h1 | h1⟩
-        · simp only at hw hl; subst hw
+        · subst hw
           rw [hh.1] at hl
           left; simpa using hl
-        · simp only at hw h1; subst hw
+        · subst hw
           rw [hr] at h1; simp at h1
-        · simp only at hw h1; subst hw
+        · subst hw
           rw [hh.1] at h1
           right; simpa using h1.1.symm
       have hrs2 : rs = [(false, o), (true, o)] :=
@@ -455,6 +455,398 @@ theorem runSpec_batch {P : List Req} (hP : P.Nodup) (rs : List Req) (hrs : rs.No
       intro x hx'
       simp only [decide_eq_true_eq, List.not_mem_nil, or_false, not_or]
       exact ⟨fun e => hP.1.2 (e ▸ hx'), fun e => hP.2.1 (e ▸ hx')⟩
+
+/-! ## 3. The availability test -/
+
+theorem canAll_ok_true_iff (qs : Queues N) (wr : Bool) (i : Nat) (rs : List N) :
+    canAll qs wr i rs = .ok true ↔ ∀ r ∈ rs, (qs.get r).canAccess wr i = some true := by
+  induction rs with
+  | nil => simp [canAll]
+  | cons r rs ih =>
+    unfold canAll
+    cases h : (qs.get r).canAccess wr i with
+    | none => simp [h]
+    | some b => cases b <;> simp [h, ih]
+
+theorem canAll_ok_false {qs : Queues N} {wr : Bool} {i : Nat} {rs : List N} (h : canAll qs wr i rs = .ok false) :
+    ∃ r ∈ rs, (qs.get r).canAccess wr i = some false := by
+  induction rs with
+  | nil => simp [canAll] at h
+  | cons r rs ih =>
+    unfold canAll at h
+    cases hc : (qs.get r).canAccess wr i with
+    | none => simp [hc] at h
+    | some b =>
+      cases b with
+      | false => exact ⟨r, List.mem_cons_self, hc⟩
+      | true =>
+        simp only [hc] at h
+        obtain ⟨r', hr', h'⟩ := ih h
+        exact ⟨r', List.mem_cons_of_mem _ hr', h'⟩
+
+/-- the registers unit `unit` locks for instruction `ins` -/
+def lockedRegs (unit : UnitM N) (ins : Instr N) : List N :=
+  (if unit.rd then ins.srcs else []) ++ (if unit.wr then [ins.dst] else [])
+
+/-- the outcome of the read test of `_regs_avail` -/
+def rdTest (qs : Queues N) (unit : UnitM N) (i : Nat) (ins : Instr N) : Except Fault Bool :=
+  if unit.rd then canAll qs false i ins.srcs else .ok true
+
+/-- the outcome of the write test of `_regs_avail` -/
+def wrTest (qs : Queues N) (unit : UnitM N) (i : Nat) (ins : Instr N) : Except Fault Bool :=
+  if unit.wr then canAll qs true i [ins.dst] else .ok true
+
+theorem regsAvail_eq (qs : Queues N) (unit : UnitM N) (i : Nat) (ins : Instr N) :
+    regsAvail qs unit i ins =
+      match rdTest qs unit i ins with
+      | .error f => .error f
+      | .ok false => .ok none
+      | .ok true =>
+        match wrTest qs unit i ins with
+        | .error f => .error f
+        | .ok false => .ok none
+        | .ok true => .ok (some (lockedRegs unit ins)) := rfl
+
+theorem rdTest_ok_true_iff (qs : Queues N) (unit : UnitM N) (i : Nat) (ins : Instr N) :
+    rdTest qs unit i ins = .ok true ↔
+      (unit.rd = true → ∀ r ∈ ins.srcs, (qs.get r).canAccess false i = some true) := by
+  unfold rdTest
+  cases unit.rd <;> simp [canAll_ok_true_iff]
+
+theorem wrTest_ok_true_iff (qs : Queues N) (unit : UnitM N) (i : Nat) (ins : Instr N) :
+    wrTest qs unit i ins = .ok true ↔ (unit.wr = true → (qs.get ins.dst).canAccess true i = some true) := by
+  unfold wrTest
+  cases unit.wr <;> simp [canAll_ok_true_iff]
+
+theorem rdTest_ok_false {qs : Queues N} {unit : UnitM N} {i : Nat} {ins : Instr N}
+    (h : rdTest qs unit i ins = .ok false) :
+    unit.rd = true ∧ ∃ r ∈ ins.srcs, (qs.get r).canAccess false i = some false := by
+  unfold rdTest at h
+  cases hr : unit.rd with
+  | false => simp [hr] at h
+  | true => simp only [hr, if_true] at h; exact ⟨rfl, canAll_ok_false h⟩
+
+theorem wrTest_ok_false {qs : Queues N} {unit : UnitM N} {i : Nat} {ins : Instr N}
+    (h : wrTest qs unit i ins = .ok false) :
+    unit.wr = true ∧ (qs.get ins.dst).canAccess true i = some false := by
+  unfold wrTest at h
+  cases hr : unit.wr with
+  | false => simp [hr] at h
+  | true =>
+    simp only [hr, if_true] at h
+    obtain ⟨r, hr', h'⟩ := canAll_ok_false h
+    simp only [List.mem_singleton] at hr'
+    subst hr'
+    exact ⟨rfl, h'⟩
+
+/-- `_regs_avail` grants exactly when every asked `can_access` answers `True` -/
+theorem regsAvail_some_iff (qs : Queues N) (unit : UnitM N) (i : Nat) (ins : Instr N) (regs : List N) :
+    regsAvail qs unit i ins = .ok (some regs) ↔
+      regs = lockedRegs unit ins ∧
+      (unit.rd = true → ∀ r ∈ ins.srcs, (qs.get r).canAccess false i = some true) ∧
+      (unit.wr = true → (qs.get ins.dst).canAccess true i = some true) := by
+  rw [regsAvail_eq, ← rdTest_ok_true_iff, ← wrTest_ok_true_iff]
+  cases h1 : rdTest qs unit i ins with
+  | error f => simp
+  | ok b =>
+    cases b with
+    | false => simp
+    | true =>
+      cases h2 : wrTest qs unit i ins with
+      | error f => simp
+      | ok b' => cases b' <;> simp [eq_comm]
+
+/-- `_regs_avail` refuses (data stall) exactly when the read test or, after a passed read test, the write test
+answers `False` -/
+theorem regsAvail_none_iff (qs : Queues N) (unit : UnitM N) (i : Nat) (ins : Instr N) :
+    regsAvail qs unit i ins = .ok none ↔
+      rdTest qs unit i ins = .ok false ∨ (rdTest qs unit i ins = .ok true ∧ wrTest qs unit i ins = .ok false) := by
+  rw [regsAvail_eq]
+  cases h1 : rdTest qs unit i ins with
+  | error f => simp
+  | ok b =>
+    cases b with
+    | false => simp
+    | true =>
+      cases h2 : wrTest qs unit i ins with
+      | error f => simp
+      | ok b' => cases b' <;> simp
+
+/-! ## 4. Granted accesses and the queue invariant -/
+
+/-- unit `u` holds the lock of kind `wr` (`false` = read lock, `true` = write lock) -/
+def lockOf (wr : Bool) (u : UnitM N) : Bool := if wr then u.wr else u.rd
+
+/-- in record `row`, instruction `i` is unstalled (`U`) in a unit holding the lock of kind `wr`: it performs that
+access in this cycle -/
+def accIn (p : Proc N) (row : Util N) (wr : Bool) (i : Nat) : Bool :=
+  p.allUnits.any (fun u => lockOf wr u && (row.get u.name).any (fun h => h.idx == i && h.st == .U))
+
+/-- access `(wr, i)` was performed in one of the rows of `tbl` -/
+def grantedB (p : Proc N) (tbl : List (Util N)) (wr : Bool) (i : Nat) : Bool :=
+  tbl.any (fun row => accIn p row wr i)
+
+theorem accIn_iff {p : Proc N} {row : Util N} {wr : Bool} {i : Nat} :
+    accIn p row wr i = true ↔ ∃ u ∈ p.allUnits, lockOf wr u = true ∧ (⟨i, .U⟩ : HI) ∈ row.get u.name := by
+  simp only [accIn, List.any_eq_true, Bool.and_eq_true, beq_iff_eq]
+  constructor
+  · rintro ⟨u, hu, hl, h, hh, h1, h2⟩
+    refine ⟨u, hu, hl, ?_⟩
+    obtain ⟨a, b⟩ := h
+    simp only at h1 h2
+    subst h1; subst h2; exact hh
+  · rintro ⟨u, hu, hl, hh⟩
+    exact ⟨u, hu, hl, ⟨i, .U⟩, hh, rfl, rfl⟩
+
+theorem grantedB_cons (p : Proc N) (row : Util N) (tbl : List (Util N)) (wr : Bool) (i : Nat) :
+    grantedB p (row :: tbl) wr i = (accIn p row wr i || grantedB p tbl wr i) := rfl
+
+theorem grantedB_nil (p : Proc N) (wr : Bool) (i : Nat) : grantedB p [] wr i = false := rfl
+
+/-- **The queue invariant**: every access queue is well formed and stands for exactly the requests of the plan that
+have not been granted in a recorded cycle. -/
+structure PlanInv (p : Proc N) (prog : List (Instr N)) (s : SimState N) : Prop where
+  wf : ∀ r, WFq (s.queues.get r)
+  abs_eq : ∀ r, abs (s.queues.get r) = (reqsOf prog r).filter (fun x => !grantedB p s.table x.1 x.2)
+
+theorem PlanInv.init (p : Proc N) (prog : List (Instr N)) : PlanInv p prog (initState prog) := by
+  refine ⟨fun r => wf_buildPlan prog r, fun r => ?_⟩
+  show abs ((buildPlan prog).get r) = _
+  rw [abs_buildPlan]
+  symm
+  apply List.filter_eq_self.2
+  intro x _
+  rfl
+
+theorem PlanInv.sorted {p : Proc N} {prog : List (Instr N)} {s : SimState N} (h : PlanInv p prog s) (r : N) :
+    Sorted (abs (s.queues.get r)) := by
+  rw [h.abs_eq]; exact (reqsOf_pairwise prog r).filter _
+
+theorem PlanInv.mem_abs {p : Proc N} {prog : List (Instr N)} {s : SimState N} (h : PlanInv p prog s) {r : N}
+    {x : Req} : x ∈ abs (s.queues.get r) ↔ x ∈ reqsOf prog r ∧ grantedB p s.table x.1 x.2 = false := by
+  rw [h.abs_eq, List.mem_filter]; simp
+
+/-! ### the deferred dequeues, register by register -/
+
+theorem applyClears_runHistory {qs qs' : Queues N} {cs : List (N × Nat)} (h : applyClears qs cs = .ok qs') (r : N) :
+    runHistory (qs.get r) ((cs.filter (fun c => decide (c.1 = r))).map (·.2)) = some (qs'.get r) := by
+  induction cs generalizing qs with
+  | nil => simp only [applyClears] at h; cases h; rfl
+  | cons c cs ih =>
+    obtain ⟨a, i⟩ := c
+    unfold applyClears at h
+    cases hd : (qs.get a).dequeue i with
+    | none => simp [hd] at h
+    | some q =>
+      simp only [hd] at h
+      have := ih h
+      by_cases ha : a = r
+      · subst ha
+        simp only [List.filter_cons, decide_true, if_true, List.map_cons, runHistory_cons, hd, Option.bind_some]
+        simpa using this
+      · simp only [List.filter_cons, ha, decide_false, Bool.false_eq_true, if_false]
+        rwa [Queues.get_set_ne _ _ ha] at this
+
+/-- the clears requested by a successful `labelAll`, entry by entry -/
+theorem labelAll_clears {units : List (UnitM N)} {prog : List (Instr N)} {qs : Queues N} {old u : Util N}
+    {r : Util N × List (N × Nat)} (h : labelAll units prog qs old u = .ok r) :
+    r.2 = (AMap.toList u).flatMap (fun e =>
+      match lookupUnit units e.1 with
+      | some unit => e.2.flatMap (fun x => clearsOf prog qs unit (old.get e.1) x.idx)
+      | none => []) := by
+  induction u generalizing r with
+  | nil => rw [labelAll_nil] at h; cases h; rfl
+  | cons e rest ih =>
+    obtain ⟨n, l⟩ := e
+    obtain ⟨r', hr', hcase⟩ := labelAll_cons_ok h
+    rcases hcase with ⟨hl, rfl⟩ | ⟨hl, unit, rl, hlu, hll, rfl⟩
+    · subst hl
+      simp only [AMap.toList_cons, List.flatMap_cons, ih hr']
+      cases lookupUnit units n <;> simp
+    · simp only [AMap.toList_cons, List.flatMap_cons, ih hr', hlu, (labelList_ok hll).2]
+
+/-! ### the requests granted in one cycle -/
+
+theorem flatMap_congr' {α β : Type} {l : List α} {f g : α → List β} (h : ∀ a ∈ l, f a = g a) :
+    l.flatMap f = l.flatMap g := by
+  induction l with
+  | nil => rfl
+  | cons a t ih =>
+    rw [List.flatMap_cons, List.flatMap_cons, h a List.mem_cons_self,
+      ih (fun b hb => h b (List.mem_cons_of_mem _ hb))]
+
+theorem sublist_flatMap_of_mem {α β : Type} {l : List α} (f : α → List β) {a : α} (h : a ∈ l) :
+    (f a).Sublist (l.flatMap f) := by
+  induction l with
+  | nil => cases h
+  | cons b t ih =>
+    rw [List.flatMap_cons]
+    rcases List.mem_cons.1 h with e | e
+    · subst e; exact List.sublist_append_left _ _
+    · exact (ih e).trans (List.sublist_append_right _ _)
+
+theorem filter_eq_of_nodup {l : List N} (hl : l.Nodup) (r : N) :
+    l.filter (fun x => decide (x = r)) = if r ∈ l then [r] else [] := by
+  induction l with
+  | nil => simp
+  | cons a t ih =>
+    rw [List.nodup_cons] at hl
+    by_cases ha : a = r
+    · subst ha
+      have : t.filter (fun x => decide (x = a)) = [] := by rw [ih hl.2]; simp [hl.1]
+      simp [List.filter_cons, this]
+    · have ha' : ¬ r = a := fun e => ha e.symm
+      simp [List.filter_cons, ha, ha', ih hl.2]
+
+theorem eq_of_map_eq_of_nodup' {α β : Type} (f : α → β) {l : List α} (h : (l.map f).Nodup) {a b : α} (ha : a ∈ l)
+    (hb : b ∈ l) (e : f a = f b) : a = b := by
+  induction l with
+  | nil => cases ha
+  | cons c l ih =>
+    simp only [List.map_cons, List.nodup_cons, List.mem_map, not_exists, not_and] at h
+    rcases List.mem_cons.1 ha with rfl | ha' <;> rcases List.mem_cons.1 hb with rfl | hb'
+    · rfl
+    · exact absurd e.symm (h.1 b hb')
+    · exact absurd e (h.1 a ha')
+    · exact ih h.2 ha' hb'
+
+/-- label `U` means: examined (not loaded before), and `_regs_avail` granted all locked registers -/
+theorem labelOf_U_iff (prog : List (Instr N)) (qs : Queues N) (unit : UnitM N) (old : List HI) (i : Nat) :
+    labelOf prog qs unit old i = .U ↔
+      wasLoaded old i = false ∧ ∃ ins, prog[i]? = some ins ∧
+        regsAvail qs unit i ins = .ok (some (lockedRegs unit ins)) := by
+  unfold labelOf
+  cases hw : wasLoaded old i with
+  | true => simp
+  | false =>
+    simp only [Bool.false_eq_true, if_false, true_and]
+    cases hp : prog[i]? with
+    | none => simp
+    | some ins =>
+      cases hr : regsAvail qs unit i ins with
+      | error f => simp [hr]
+      | ok o =>
+        cases o with
+        | none => simp [hr]
+        | some regs =>
+          have := ((regsAvail_some_iff qs unit i ins regs).1 hr).1
+          subst this
+          simp [hr]
+
+theorem clearsOf_eq (prog : List (Instr N)) (qs : Queues N) (unit : UnitM N) (old : List HI) (i : Nat) :
+    clearsOf prog qs unit old i =
+      if labelOf prog qs unit old i = .U then
+        match prog[i]? with
+        | some ins => (lockedRegs unit ins).map (fun x => (x, i))
+        | none => []
+      else [] := by
+  unfold clearsOf labelOf
+  cases hw : wasLoaded old i with
+  | true => simp
+  | false =>
+    simp only [Bool.false_eq_true, if_false]
+    cases hp : prog[i]? with
+    | none => simp
+    | some ins =>
+      cases hr : regsAvail qs unit i ins with
+      | error f => simp [hr]
+      | ok o =>
+        cases o with
+        | none => simp [hr]
+        | some regs =>
+          have := ((regsAvail_some_iff qs unit i ins regs).1 hr).1
+          subst this
+          simp [hr]
+
+/-- the requests on register `r` granted to instruction `i` when it is examined in `unit` -/
+def instrReqs (prog : List (Instr N)) (qs : Queues N) (unit : UnitM N) (old : List HI) (r : N) (i : Nat) : List Req :=
+  if labelOf prog qs unit old i = .U then
+    match prog[i]? with
+    | some ins =>
+      (if unit.rd = true ∧ r ∈ ins.srcs then [(false, i)] else []) ++
+      (if unit.wr = true ∧ ins.dst = r then [(true, i)] else [])
+    | none => []
+  else []
+
+theorem clearsOf_owners {prog : List (Instr N)} (hprog : ProgOK prog) (qs : Queues N) (unit : UnitM N)
+    (old : List HI) (r : N) (i : Nat) :
+    ((clearsOf prog qs unit old i).filter (fun c => decide (c.1 = r))).map (·.2) =
+      (instrReqs prog qs unit old r i).map (·.2) := by
+  rw [clearsOf_eq]
+  unfold instrReqs
+  by_cases hl : labelOf prog qs unit old i = .U
+  · simp only [hl, if_true]
+    cases hp : prog[i]? with
+    | none => rfl
+    | some ins =>
+      have hnd : ins.srcs.Nodup := hprog ins (List.mem_of_getElem? hp)
+      simp only [lockedRegs, List.map_append, List.filter_append, List.filter_map, List.map_map]
+      congr 1
+      · cases unit.rd with
+        | false => simp
+        | true =>
+          have : (ins.srcs.filter ((fun c : N × Nat => decide (c.1 = r)) ∘ fun x => (x, i))) =
+              ins.srcs.filter (fun x => decide (x = r)) := rfl
+          simp only [if_true, true_and, this, filter_eq_of_nodup hnd]
+          by_cases hr : r ∈ ins.srcs <;> simp [hr]
+      · cases unit.wr with
+        | false => simp
+        | true =>
+          by_cases hd : ins.dst = r <;> simp [hd, List.filter_cons]
+  · simp [hl]
+
+theorem mem_instrReqs {prog : List (Instr N)} {qs : Queues N} {unit : UnitM N} {old : List HI} {r : N} {i : Nat}
+    {x : Req} :
+    x ∈ instrReqs prog qs unit old r i ↔
+      x.2 = i ∧ labelOf prog qs unit old i = .U ∧ lockOf x.1 unit = true ∧
+        ∃ ins, prog[i]? = some ins ∧ (if x.1 then ins.dst = r else r ∈ ins.srcs) := by
+  obtain ⟨w, o⟩ := x
+  unfold instrReqs lockOf
+  by_cases hl : labelOf prog qs unit old i = .U
+  · simp only [hl, if_true, true_and]
+    cases hp : prog[i]? with
+    | none => simp
+    | some ins =>
+      simp only [List.mem_append, Option.some.injEq, exists_eq_left']
+      cases w <;> by_cases h1 : unit.rd = true <;> by_cases h2 : unit.wr = true <;>
+        by_cases h3 : r ∈ ins.srcs <;> by_cases h4 : ins.dst = r <;> simp [h1, h2, h3, h4, eq_comm]
+  · simp [hl]
+
+theorem instrReqs_nodup (prog : List (Instr N)) (qs : Queues N) (unit : UnitM N) (old : List HI) (r : N) (i : Nat) :
+    (instrReqs prog qs unit old r i).Nodup := by
+  unfold instrReqs
+  split
+  · split
+    · split <;> split <;> simp
+    · simp
+  · simp
+
+/-- requests on `r` granted in one entry `(unit name, hosted instructions)` of the record -/
+def entryReqs (units : List (UnitM N)) (prog : List (Instr N)) (qs : Queues N) (old : Util N) (r : N)
+    (e : N × List HI) : List Req :=
+  match lookupUnit units e.1 with
+  | some unit => e.2.flatMap (fun x => instrReqs prog qs unit (old.get e.1) r x.idx)
+  | none => []
+
+/-- all requests on `r` granted when record `F` is labelled against the queues `qs` -/
+def rowReqs (units : List (UnitM N)) (prog : List (Instr N)) (qs : Queues N) (old F : Util N) (r : N) : List Req :=
+  (AMap.toList F).flatMap (entryReqs units prog qs old r)
+
+/-- the owners dequeued from the queue of `r` at the end of the cycle are the owners of `rowReqs`, in order -/
+theorem clears_owners {units : List (UnitM N)} {prog : List (Instr N)} (hprog : ProgOK prog) {qs : Queues N}
+    {old F : Util N} {lab : Util N × List (N × Nat)} (h : labelAll units prog qs old F = .ok lab) (r : N) :
+    (lab.2.filter (fun c => decide (c.1 = r))).map (·.2) = (rowReqs units prog qs old F r).map (·.2) := by
+  rw [labelAll_clears h, rowReqs, List.filter_flatMap, List.map_flatMap, List.map_flatMap]
+  apply flatMap_congr'
+  intro e _
+  unfold entryReqs
+  cases lookupUnit units e.1 with
+  | none => rfl
+  | some unit =>
+    simp only [List.filter_flatMap, List.map_flatMap]
+    apply flatMap_congr'
+    intro x _
+    exact clearsOf_owners hprog qs unit _ r x.idx
 
 end Hazards
 end ProcSim
